@@ -259,4 +259,20 @@ example (d : Decls) (defs : Defs) :
   have := Sel.cons (SelNode.yes (c := .lit (.bool true)) (f := none) rfl outer) (Sel.nil (d := d) (defs := defs))
   simpa using this
 
+/-- **every define names a declared constant** whenever the check for unused defines passes (finding F46, repaired:
+    a label or a function of that name used to satisfy it) -/
+theorem every_define_names_a_constant (opts : Opts) (d : Decls) (h : checkUnusedDefines opts d = []) :
+    ∀ dv ∈ opts.defines, ∃ r, d.symbols.tryGetByName [] 0 ((splitOnChar '.' dv.1.toList).map String.ofList) = some r ∧
+      (d.symbols.decls.getD r default).kind = .constant := by
+  intro dv hdv
+  unfold checkUnusedDefines at h
+  have hnone := List.filterMap_eq_nil_iff.mp h dv hdv
+  simp only at hnone
+  cases hr : d.symbols.tryGetByName [] 0 ((splitOnChar '.' dv.1.toList).map String.ofList) with
+  | none => rw [hr] at hnone; cases hnone
+  | some r =>
+    rw [hr] at hnone
+    refine ⟨r, rfl, ?_⟩
+    cases hk : (d.symbols.decls.getD r default).kind <;> simp only [hk] at hnone <;> first | rfl | cases hnone
+
 end Casm.C16
